@@ -1117,7 +1117,7 @@ func genItems(r *common.Rng, n int, idKind func() int) []*pboutput.Item {
 		case 0:
 		case 1:
 			if !small {
-				it.Payload = genBytes(r, r.Range(1000, 30000))
+				it.Payload = genBytes(r, r.Range(1000, 20000)>>uint(r.Intn(3)))
 			}
 		default:
 			it.Payload = genBytes(r, genLen(r))
@@ -1176,7 +1176,7 @@ func genCraftedArray(r *common.Rng) []byte {
 
 func sizes(r *common.Rng, thorough bool, i int) int {
 	switch {
-	case i%600 == 599:
+	case i%350 == 349:
 		if thorough {
 			return r.Range(2000, 6000)
 		}
@@ -1267,7 +1267,19 @@ func main() {
 			emit("SDEC " + common.Hex(b))
 		}
 	}
-	nStore := 1200 * scale
+	// minimal witnesses first (so that the replay file of a finding is the small one): F18 and its neighbours
+	for _, l := range []string{
+		"STORE 6bfffe:76 _",     // key "k\xff\xfe" (not UTF-8), value "v"
+		"STORE 6b:76 fffe",      // delete prefix that is not UTF-8
+		"STORE c3a9:76 70",      // multi-byte UTF-8 key: every codec agrees
+		"STORE -:- -",           // empty key, empty value, empty prefix
+		"STORE _ _",
+	} {
+		_, sb := emit(l)
+		decode(sb.vt)
+		decode(sb.pb)
+	}
+	nStore := 700 * scale
 	for i := 0; i < nStore; i++ {
 		n := sizes(rng, th, i)
 		mode := rng.Intn(10)
@@ -1310,7 +1322,7 @@ func main() {
 			}
 		}
 	}
-	for i := 0; i < 6000*scale; i++ {
+	for i := 0; i < 5000*scale; i++ {
 		b := genCraftedStore(rng)
 		if rng.Chance(1, 4) {
 			b = mutate(rng, b)
@@ -1323,7 +1335,7 @@ func main() {
 	}
 
 	// ---- output cache contents
-	nItems := 600 * scale
+	nItems := 350 * scale
 	for i := 0; i < nItems; i++ {
 		n := sizes(rng, th, i)
 		mode := rng.Intn(10)
@@ -1355,7 +1367,7 @@ func main() {
 			}
 		}
 	}
-	for i := 0; i < 6000*scale; i++ {
+	for i := 0; i < 5000*scale; i++ {
 		b := genCraftedArray(rng)
 		if rng.Chance(1, 4) {
 			b = mutate(rng, b)
